@@ -1,4 +1,5 @@
 import Zlink.Proofs.Server
+import Zlink.Proofs.ServerMid
 import Zlink.Proofs.ServerQuiet
 import Zlink.Proofs.ServerCredit
 import Zlink.Properties.C08
@@ -136,6 +137,15 @@ theorem C10_ready_call_goes_first (C : Consts) (sizes : Nat → Nat) (s s' : S) 
         split at h
         · cases h; exact Or.inl rfl
         · split at h <;> cases h <;> first | exact Or.inl rfl | exact Or.inr rfl
+
+/-- **Arrivals while the server is busy are ordinary events.** `Srv.runMid` runs an event list in which bytes of one
+    client arrive in the middle of a poll - at the moment another client's reply stream has handed over its `k`-th
+    result (what the harness's trigger events do inside `poll_next`). Whatever the triggers are, the state it reaches
+    is the state `runEvs` reaches on an ordinary event list (each poll cut into single iterations, the triggered
+    arrivals between them): every theorem of C08 / C09 / C10 / C18 about `runEvs` speaks about such runs too. -/
+theorem C10_mid_poll_arrivals_are_events (C : Consts) (sizes : Nat → Nat) (evs : List Srv.Ev) (trigs : List Srv.Trig) :
+    ∃ evs', (runMid C sizes evs (init, trigs)).1 = runEvs C sizes evs' init :=
+  runMid_is_run C sizes evs init trigs
 
 /-- **While a stream is open other clients are served to completion.** In EVERY reachable state in which the
     server loop can make no progress — reply streams may be open, waiting for their service for as long as it
